@@ -60,6 +60,9 @@ type PFCPConn struct {
 	// channel to signal PFCPNode on exit
 	done     chan<- string
 	shutdown chan struct{}
+	// shutdownOnce makes Shutdown idempotent: several triggers (release request,
+	// read timeout, heartbeat failure, node stop) may race to end one connection.
+	shutdownOnce sync.Once
 
 	metrics.InstrumentPFCP
 
@@ -229,8 +232,12 @@ func (pConn *PFCPConn) Serve() {
 	}
 }
 
-// Shutdown stops connection backing PFCPConn.
+// Shutdown stops connection backing PFCPConn. Only the first call has an effect.
 func (pConn *PFCPConn) Shutdown() {
+	pConn.shutdownOnce.Do(pConn.doShutdown)
+}
+
+func (pConn *PFCPConn) doShutdown() {
 	close(pConn.shutdown)
 
 	if pConn.hbCtxCancel != nil {
